@@ -235,6 +235,20 @@ def _evaluated(F, which):
     return _WCACHE[key][0]
 
 
+def text_reader_evaluated(F):
+    """the evaluation-based model of from_str_bytes (rmodel) or None when the parser cannot be evaluated completely"""
+    key = (id(F), "rtext")
+    if key not in _WCACHE:
+        from . import rmodel
+        try:
+            R, err = rmodel.text_reader(F)
+        except RecursionError:
+            R, err = None, "recursion"
+        _WCACHE[key] = (R, err)
+        _WCACHE[(id(F), "rtext", "keep")] = F
+    return _WCACHE[key][0]
+
+
 def text_writer(F):
     """Writer model of store_into_str_bytes: by abstract evaluation when the function can be evaluated completely (wmodel), else by
     the write idioms below."""
